@@ -645,12 +645,13 @@ example : 0 < count "modelled" ∧ 0 < count "argued" := by decide +kernel
 #eval show IO Unit from
   if !misencoded.isEmpty then
     throw (IO.userError ("translator defect, keyNat is not the encoding of key: " ++ String.intercalate " ;; " misencoded))
-  else if !uncovered.isEmpty then
-    throw (IO.userError ("RAW SITES WITHOUT A DISPOSITION in lean/TinsModel/Wire/RawCoverage.lean: " ++
-      String.intercalate " ;; " (uncovered.map (·.key))))
-  else if !missingGuards.isEmpty then
-    throw (IO.userError ("GUARDS CITED BY lean/TinsModel/Wire/RawCoverage.lean THAT ARE GONE FROM THE SOURCE: " ++
-      String.intercalate " ;; " (missingGuards.map (·.s))))
-  else pure ()
+  else if uncovered.isEmpty && missingGuards.isEmpty then pure ()
+  else throw (IO.userError (
+    (if uncovered.isEmpty then "" else
+      "RAW SITES WITHOUT A DISPOSITION in lean/TinsModel/Wire/RawCoverage.lean: " ++
+        String.intercalate " ;; " (uncovered.map (·.key)) ++ " ;;END\n") ++
+    (if missingGuards.isEmpty then "" else
+      "GUARDS CITED BY lean/TinsModel/Wire/RawCoverage.lean THAT ARE GONE FROM THE SOURCE: " ++
+        String.intercalate " ;; " (missingGuards.map (·.s)) ++ " ;;END\n")))
 
 end Tins.Wire.RawCoverage
